@@ -95,7 +95,10 @@ func VerifC14_InjectedConfigDB() {
 		<-sub.Feed
 	}
 	want := 1
-	switch rt.Choice("op", 5) {
+	switch rt.Choice("op", 6) {
+	case 5: // a set that is refused (wrong type): nothing changed, nothing is delivered
+		rt.Assert(SetConfigOption("seed/opt", 42) != nil, "injected/invalid-set-refused")
+		want = 0
 	case 0: // changed by the configuration system itself: pushed by the injected database
 		rt.Assert(SetConfigOption("seed/opt", "x") == nil, "injected/set")
 	case 1: // put through a database interface
